@@ -95,6 +95,15 @@ def record_analysis(spec):
             e.update(m2=qc(float(ref.XY_M2[j]) / den) if den else 0, ev=qc(float(ref.XY_emp_var[j]) / den) if den else 0,
                      ed=qc(float(ref.Gxy_emp_dev[j]) / math.sqrt(float(ref.Gxx[j] * ref.Gyy[j]))) if den else 0,
                      fq=qc(float(ref.f[j]) / fs), enbw=qc(float(ref.ENBW[j]) / emax))
+            # views of the same estimate (C20)
+            gyx = ref.Gyx[j] / math.sqrt(float(ref.Gxx[j] * ref.Gyy[j])) if den else 0j
+            hyx = ref.Hyx[j] / math.sqrt(float(ref.Gyy[j] / ref.Gxx[j])) if den else 0j
+            hsc = math.sqrt(float(ref.Gyy[j] / ref.Gxx[j])) if den else 1.0
+            e.update(gyx=[qc(gyx.real), qc(gyx.imag)], hyx=[qc(hyx.real), qc(hyx.imag)], cfn=qc(float(ref.cf[j]) / hsc),
+                     rad=qc(float(ref.cf_rad[j]), 4096), deg=qc(float(ref.cf_deg[j]), 4096),
+                     csn=qc(abs(ref.cs[j]) / (s * emax)), csdn=qc(abs(ref.csd[j]) / s),
+                     nonek=int(ref.psd is None and ref.asd is None and ref.ps is None and ref.Gxx_emp_dev is None),
+                     tfsame=int(np.array_equal(ref.tf, ref.Hxy)))
             ev.append(e)
         idx = list(range(nf)) if nf <= 60 else sorted(set(int(v) for v in np.linspace(0, nf - 1, 60)))
         for var in spec["variants"]:
@@ -107,7 +116,9 @@ def record_analysis(spec):
                 for ch, rec in ((1, x), (2, y)):
                     r = analyze(rec, fs, spec)
                     for j in idx:
-                        ev.append({"t": "alone", "j": j + 1, "ch": ch, "gxx": qc(float(r.Gxx[j]) / s)})
+                        ev.append({"t": "alone", "j": j + 1, "ch": ch, "gxx": qc(float(r.Gxx[j]) / s), "psd": qc(float(r.psd[j]) / s),
+                                   "asd2": qc(float(r.asd[j]) ** 2 / s), "ps": qc(float(r.ps[j]) / (s * emax)), "enbw": qc(float(r.ENBW[j]) / emax),
+                                   "nonek": int(all(getattr(r, nm) is None for nm in ("csd", "coh", "Hxy", "tf", "cf", "cf_db", "cf_rad", "GyySx", "Gxy_dev", "coh_error", "Gxy_emp_dev")))})
             elif kind == "scale":
                 _, cn, cd, dn, dd = var
                 r = analyze(np.vstack([x * cn / cd, y * dn / dd]), fs, spec)
